@@ -25,7 +25,7 @@ TECHNIQUE = 'symbolic execution of the real PIT forward + export on z3-real mask
 FUNCTIONS_ENCODED = ['PITFeaturesMasker/PITTimestepMasker/PITDilationMasker.theta', 'PITBinarizer', 'PITConv1d/PITConv2d/PITLinear.forward', 'PITConv1d._time_mask/kernel_size_opt/dilation_opt',
                      'PITConv1d/PITConv2d/PITLinear.export', 'PITBatchNorm1d/2d.export', 'pit/graph.py convert(export)/export_node', 'ModAttr/Flatten/Concat/ConstFeaturesCalculator.features_mask',
                      'PIT.export', 'PIT.summary']
-BOUNDS = {'quick': 'T1: K=1..9, d0 in {1,2}, C in {1,2}, stride 1, symbolic weights for K<=5; whole nets T2, A1, K1(s+s), D2, L1 (fold_bn off), T = rf + 2 timesteps, 3x3 images',
+BOUNDS = {'quick': 'T1: K=1..9, d0 in {1,2}, C in {1,2}, stride 1, symbolic weights for K<=5; whole nets T2, A1, K1(s+s), D2, L1 (fold_bn off), T = rf + 2 timesteps, 3x3 images; D2 / T2 / L1 with BatchNorm eps of the order of the variances (the re-created BatchNorm must carry eps itself: only statistics/affine are copied); T1(K=3) and T2 with the masks written through .data / in place into a model that was already evaluated, summarised and exported',
           'thorough': 'T1: K=1..9 x d0=1..3 x stride 1..2 x C=1..3 (symbolic weights for K<=6); T2/D2/L1 fold_bn on+off, A1 (+depthwise), K1 all origin pairs and a 3-way concat, K2, R2; a second independent weight assignment (VERIF_SEED)'}
 OUTSIDE = ['float32 round-off (exact real arithmetic: any difference is a counterexample)', 'inputs longer than rf + 2 (the convolution is shift-invariant)', "padding='same' convolutions (documented as not function-preserving under RF pruning)",
            'architectures outside the grammar', 'whole-network programs use one generic dyadic weight assignment (multilinearity argument, DESIGN 2.3)']
